@@ -14,7 +14,13 @@ Extracted from the AST of the current source:
     argument of `get_handler(…)` / `iterate(…)` and in the TypeError message — so the only thing
     a run does to the caller's source is calling `next()` on it;
   * `glomit`: callbacks folded in `reversed(self._iter_stack)` order;
-  * builder method -> the iterator function its callback calls.
+  * builder method -> the iterator function its callback calls;
+  * every statement / call inside a function or lambda nested in a method of `Iter` (the stage
+    callbacks and whatever they define) that WRITES a variable of the enclosing method: a
+    mutating method call on it (`seen.add(k)`, `seen.clear()`), a store / deletion through it
+    (`cache[k] = v`), an assignment under `nonlocal`.  A callback runs once per `glomit`, i.e. per
+    stream; state it keeps in the method's frame is state of the SPEC, shared by every stream of
+    it and of the specs derived from it.
 """
 import ast
 
@@ -74,13 +80,135 @@ def self_writes(cls):
     return sorted(set(out))
 
 
+def _outer_names(fn):
+    """names bound in the frame of method `fn`: parameters and assigned locals (not those of nested functions)"""
+    names = {a.arg for a in fn.args.args + fn.args.kwonlyargs + fn.args.posonlyargs}
+    if fn.args.vararg:
+        names.add(fn.args.vararg.arg)
+    if fn.args.kwarg:
+        names.add(fn.args.kwarg.arg)
+    stack = list(fn.body)
+    while stack:
+        n = stack.pop()
+        if isinstance(n, (ast.FunctionDef, ast.AsyncFunctionDef, ast.Lambda, ast.ClassDef)):
+            if not isinstance(n, ast.Lambda):
+                names.add(n.name)
+            continue
+        if isinstance(n, ast.Name) and isinstance(n.ctx, ast.Store):
+            names.add(n.id)
+        stack.extend(ast.iter_child_nodes(n))
+    names.discard('self')
+    return names
+
+
+def _root_name(node):
+    n = node
+    while isinstance(n, (ast.Attribute, ast.Subscript)):
+        n = n.value
+    return n.id if isinstance(n, ast.Name) else None
+
+
+def callback_writes(cls):
+    """(method, statement) for every write, from inside a nested function / lambda of a method of `cls`,
+    to a variable of the method's frame"""
+    out = []
+    for fn in cls.body:
+        if not isinstance(fn, ast.FunctionDef):
+            continue
+        outer = _outer_names(fn)
+        nested = []
+        stack = list(fn.body)
+        while stack:
+            n = stack.pop()
+            if isinstance(n, (ast.FunctionDef, ast.AsyncFunctionDef, ast.Lambda)):
+                nested.append(n)
+                continue
+            stack.extend(ast.iter_child_nodes(n))
+        for nf in nested:
+            # names rebound inside the nested function (its parameters and plain assignments) shadow the outer ones
+            inner = {a.arg for a in nf.args.args + nf.args.kwonlyargs + nf.args.posonlyargs}
+            nonlocals = set()
+            for n in ast.walk(nf):
+                if isinstance(n, ast.Nonlocal):
+                    nonlocals |= set(n.names)
+            body = nf.body if isinstance(nf.body, list) else [nf.body]
+            for b in body:
+                for n in ast.walk(b):
+                    if isinstance(n, ast.Name) and isinstance(n.ctx, ast.Store) and n.id not in nonlocals:
+                        inner.add(n.id)
+            shared = (outer - inner) | (nonlocals & outer)
+            for b in body:
+                for n in ast.walk(b):
+                    hit = False
+                    if isinstance(n, ast.Call) and isinstance(n.func, ast.Attribute) and n.func.attr in MUTATORS \
+                            and _root_name(n.func.value) in shared:
+                        hit = True
+                    targets = []
+                    if isinstance(n, ast.Assign):
+                        targets = n.targets
+                    elif isinstance(n, (ast.AugAssign, ast.AnnAssign)):
+                        targets = [n.target]
+                    elif isinstance(n, ast.Delete):
+                        targets = n.targets
+                    for t in targets:
+                        for tt in (ast.walk(t) if isinstance(t, (ast.Tuple, ast.List, ast.Starred)) else [t]):
+                            if isinstance(tt, (ast.Attribute, ast.Subscript)) and _root_name(tt) in shared:
+                                hit = True
+                            if isinstance(tt, ast.Name) and tt.id in nonlocals and tt.id in outer:
+                                hit = True
+                    if hit:
+                        out.append((fn.name, ast.unparse(n)[:120]))
+    return sorted(set(out))
+
+
 def is_self_attr(node, attr):
     return (isinstance(node, ast.Attribute) and node.attr == attr
             and isinstance(node.value, ast.Name) and node.value.id == 'self')
 
 
-def only_nexts(itf, loop):
-    """`iterator` only feeds the for loop, `target` only the handler lookup / the error message"""
+def helper_ok(fn):
+    """is `fn(target, scope)` the 'look up the iterate handler, call it, turn a failure into TypeError' helper:
+    `target` goes to the handler lookup / `iterate(target)` / the message only, and what it returns is
+    the result of `iterate(target)`, handed out untouched?"""
+    if fn is None or [a.arg for a in fn.args.args] != ['target', 'scope']:
+        return False
+    rets = [n for n in ast.walk(fn) if isinstance(n, ast.Return)]
+    if len(rets) != 1 or not isinstance(rets[0].value, ast.Name):
+        return False
+    var = rets[0].value.id
+    parent = {}
+    for n in ast.walk(fn):
+        for c in ast.iter_child_nodes(n):
+            parent[c] = n
+    assigns = 0
+    for n in ast.walk(fn):
+        if not isinstance(n, ast.Name):
+            continue
+        if n.id == var:
+            if isinstance(n.ctx, ast.Store):
+                a = parent.get(n)
+                assigns += 1
+                if not (isinstance(a, ast.Assign) and ast.unparse(a.value) == 'iterate(target)'):
+                    return False
+            elif parent.get(n) is not rets[0]:
+                return False
+        elif n.id == 'target':
+            pp = parent.get(n)
+            if isinstance(n.ctx, ast.Store):
+                return False
+            if isinstance(pp, ast.Call) and n in pp.args and ast.unparse(pp.func) in (
+                    'iterate', 'scope[TargetRegistry].get_handler'):
+                continue
+            if isinstance(pp, ast.Attribute) and pp.attr == '__class__' and isinstance(parent.get(pp), ast.Attribute) \
+                    and parent[pp].attr == '__name__':
+                continue
+            return False
+    return assigns == 1
+
+
+def only_nexts(itf, loop, helpers=()):
+    """`iterator` only feeds the for loop, `target` only the handler lookup / the error message
+    (`helpers`: names of functions verified by `helper_ok` that may be called as `h(target, scope)`)"""
     parent = {}
     for n in ast.walk(itf):
         for c in ast.iter_child_nodes(n):
@@ -95,7 +223,9 @@ def only_nexts(itf, loop):
             if isinstance(n.ctx, ast.Store):
                 a = parent.get(n)
                 assigns += 1
-                if not (isinstance(a, ast.Assign) and ast.unparse(a.value) == 'iterate(target)'):
+                if not (isinstance(a, ast.Assign) and (ast.unparse(a.value) == 'iterate(target)' or (
+                        isinstance(a.value, ast.Call) and ast.unparse(a.value.func) in helpers
+                        and [ast.unparse(x) for x in a.value.args] == ['target', 'scope'] and not a.value.keywords))):
                     it_ok = False
             else:
                 pp = parent.get(n)
@@ -106,7 +236,7 @@ def only_nexts(itf, loop):
             if isinstance(n.ctx, ast.Store):
                 it_ok = False
             elif isinstance(pp, ast.Call) and n in pp.args and ast.unparse(pp.func) in (
-                    'iterate', 'scope[TargetRegistry].get_handler'):
+                    'iterate', 'scope[TargetRegistry].get_handler') + tuple(helpers):
                 pass
             elif isinstance(pp, ast.Attribute) and pp.attr == '__class__' and isinstance(pp.ctx, ast.Load) \
                     and isinstance(parent.get(pp), ast.Attribute) and parent[pp].attr == '__name__':
@@ -125,12 +255,14 @@ def extract(ctx):
     it = find_def(st, 'Iter')
     inv = find_def(core, 'Invoke')
     iter_writes, invoke_writes = [('?', 'class not found')], [('?', 'class not found')]
+    cb_writes = [('?', 'class not found')]
     new_list = fwd = skip_cont = stop_ret = rev = nexts = False
     copies, callbacks = [], []
     if it is None:
         P.add('class Iter not found in streaming.py')
     else:
         iter_writes = self_writes(it)
+        cb_writes = callback_writes(it)
         # ---- _add_op
         ao = find_def(st, '_add_op', cls='Iter')
         ret = None
@@ -159,26 +291,47 @@ def extract(ctx):
         if loop is None:
             P.add('Iter._iterate: for loop not found')
         else:
-            for s in loop.body:
-                if isinstance(s, ast.If):
-                    t = s.test
-                    if (isinstance(t, ast.Compare) and len(t.ops) == 1 and isinstance(t.ops[0], ast.Is)
-                            and ast.unparse(t.left) == 'yld' and ast.unparse(t.comparators[0]) == 'SKIP'):
-                        skip_cont = len(s.body) == 1 and isinstance(s.body[0], ast.Continue)
-                        if len(s.orelse) == 1 and isinstance(s.orelse[0], ast.If):
-                            e = s.orelse[0]
-                            tt = e.test
-                            if isinstance(tt, ast.BoolOp) and isinstance(tt.op, ast.Or):
-                                srcs = sorted(ast.unparse(v) for v in tt.values)
-                                stop_ret = (srcs == ['yld is STOP', 'yld is self.sentinel']
-                                            and len(e.body) == 1 and isinstance(e.body[0], ast.Return)
-                                            and e.body[0].value is None)
-            nexts = only_nexts(itf, loop)
-            # the yield must come after the SKIP/STOP test
+            # the variable that is yielded (the last statement of the loop is `yield <name>`)
             last = loop.body[-1]
-            if not (isinstance(last, ast.Expr) and isinstance(last.value, ast.Yield)
-                    and ast.unparse(last.value.value) == 'yld'):
-                P.add('Iter._iterate: `yield yld` is not the last statement of the loop')
+            yname = None
+            if isinstance(last, ast.Expr) and isinstance(last.value, ast.Yield) and isinstance(last.value.value, ast.Name):
+                yname = last.value.value.id
+
+            def is_test(t, what):
+                return (isinstance(t, ast.Compare) and len(t.ops) == 1 and isinstance(t.ops[0], ast.Is)
+                        and ast.unparse(t.left) == yname and ast.unparse(t.comparators[0]) == what)
+
+            def is_stop(e):
+                tt = e.test
+                return (isinstance(tt, ast.BoolOp) and isinstance(tt.op, ast.Or) and len(tt.values) == 2
+                        and ((is_test(tt.values[0], 'self.sentinel') and is_test(tt.values[1], 'STOP'))
+                             or (is_test(tt.values[0], 'STOP') and is_test(tt.values[1], 'self.sentinel')))
+                        and len(e.body) == 1 and isinstance(e.body[0], ast.Return) and e.body[0].value is None
+                        and not e.orelse)
+            seen_skip = False
+            for st_ in loop.body:
+                if not isinstance(st_, ast.If):
+                    continue
+                if not seen_skip and is_test(st_.test, 'SKIP'):
+                    # `if y is SKIP: continue` …
+                    seen_skip = True
+                    skip_cont = len(st_.body) == 1 and isinstance(st_.body[0], ast.Continue)
+                    # … `elif y is self.sentinel or y is STOP: return`
+                    if len(st_.orelse) == 1 and isinstance(st_.orelse[0], ast.If):
+                        stop_ret = is_stop(st_.orelse[0])
+                elif seen_skip and skip_cont and not stop_ret and is_stop(st_):
+                    # … or the same as a separate `if` (after `continue` an `elif` and an `if` are the same)
+                    stop_ret = True
+            helpers = []
+            for node in st.body:
+                if isinstance(node, ast.ImportFrom) and node.module == 'grouping' and node.level == 1:
+                    for al in node.names:
+                        if al.name == 'target_iter' and helper_ok(find_def(ctx['src_tree']('grouping.py'), 'target_iter')):
+                            helpers.append(al.asname or al.name)
+            nexts = only_nexts(itf, loop, tuple(helpers))
+            # the yield must come after the SKIP/STOP test
+            if yname is None:
+                P.add('Iter._iterate: `yield <name>` is not the last statement of the loop')
                 skip_cont = stop_ret = False
         # ---- glomit
         gl = find_def(st, 'glomit', cls='Iter')
@@ -192,15 +345,28 @@ def extract(ctx):
         for fn in it.body:
             if not isinstance(fn, ast.FunctionDef):
                 continue
+            local_defs = {n.name: n for n in fn.body if isinstance(n, ast.FunctionDef)}
             for node in ast.walk(fn):
                 if (isinstance(node, ast.Call) and isinstance(node.func, ast.Attribute)
-                        and node.func.attr == '_add_op' and len(node.args) == 3
-                        and isinstance(node.args[2], ast.Lambda)
-                        and isinstance(node.args[2].body, ast.Call)):
+                        and node.func.attr == '_add_op' and len(node.args) == 3):
+                    cb, call = node.args[2], None
+                    if isinstance(cb, ast.Lambda) and isinstance(cb.body, ast.Call):
+                        call = cb.body
+                    elif isinstance(cb, ast.Name) and cb.id in local_defs:
+                        # a local `def` whose body is `return <call>` is the same callback as the lambda
+                        d = local_defs[cb.id]
+                        # (docstrings and nested `def`s — the inner mapper — are definitions, not actions)
+                        body = [b for b in d.body if not (isinstance(b, ast.Expr) and isinstance(b.value, ast.Constant))
+                                and not isinstance(b, ast.FunctionDef)]
+                        if len(body) == 1 and isinstance(body[0], ast.Return) and isinstance(body[0].value, ast.Call) \
+                                and len(d.args.args) == 2 and not d.decorator_list:
+                            call = body[0].value
+                    if call is None:
+                        continue
                     name = node.args[0].value if isinstance(node.args[0], ast.Constant) else '?'
                     if name != fn.name:
                         P.add('Iter.%s registers opname %r' % (fn.name, name))
-                    callbacks.append((fn.name, ast.unparse(node.args[2].body.func)))
+                    callbacks.append((fn.name, ast.unparse(call.func)))
     if inv is None:
         P.add('class Invoke not found in core.py')
     else:
@@ -228,6 +394,7 @@ def extract(ctx):
         ('c17IterateOnlyNexts', 'Bool', bool(nexts)),
         ('c17GlomitReversed', 'Bool', bool(rev)),
         ('c17Callbacks', 'List (String × String)', callbacks),
+        ('c17CallbackWrites', 'List (String × String)', cb_writes),
     ]
     return [('C17Facts', 'Iter / Invoke builder methods: writes to self, _add_op shape, _iterate SKIP/STOP '
              'branches, glomit fold order, callback functions', facts)]
